@@ -214,3 +214,10 @@ def check_writers(ctx, F, R):
                "also written by %s" % (field, sorted(TRANSITIONS), sorted(bad)),
                what="unexpected-writer:" + ",".join(sorted(bad)) if bad else None)
     ctx.floor("R8", "animator fields with writers", len([f for f in w if f in inv]), 5)
+
+
+def controls(ctx, F):
+    from rules import c04
+    tab = T.build(ctx, facts=F, adt_path=c04.CTL_ADT, crate="witness_controls")
+    T.rules_c04(ctx, tab)
+    return [("R5", "stale-pause-record-kept", "animator copy that never discards the pause record")]
